@@ -294,15 +294,20 @@ def spec(form, da, db, va, vb):
     if form == "neg":
         return {k: float(np.negative(v)) for k, v in va.items()}
     if f is not None:
+        def g(x, y):
+            if form == "div" and y == 0:
+                return OOD                   # division by zero: out of the value oracle's domain
+            r = float(f(x, y))
+            return r if math.isfinite(r) else OOD
         if is_arr(da) and is_arr(db):
             if shape_of(da) != shape_of(db) or set(va) != set(vb):
                 return None
-            return {k: float(f(va[k], vb[k])) for k in va}
+            return {k: g(va[k], vb[k]) for k in va}
         if is_arr(da):
-            return {k: float(f(va[k], vb[()])) for k in va}
+            return {k: g(va[k], vb[()]) for k in va}
         if is_arr(db):
-            return {k: float(f(va[()], vb[k])) for k in vb}
-        return {(): float(f(va[()], vb[()]))}
+            return {k: g(va[()], vb[k]) for k in vb}
+        return {(): g(va[()], vb[()])}
     if form == "dot":
         sa, sb = shape_of(da), shape_of(db)
         if (is_arr(da) and da[3]) or (is_arr(db) and db[3]):
@@ -335,7 +340,23 @@ def spec_agg(agg, d, va):
     return float({"sum": np.sum, "prod": np.prod, "mean": np.mean, "median": np.median, "std": np.std}[k[0]](arr))
 
 
+class _OutOfDomain:
+    """expected value of an entry whose exact evaluation divides by zero or meets a non-finite intermediate: Python raises
+    or numpy's scalars continue with inf / nan depending on the operand types — not the property's subject; no claim"""
+    def __repr__(self):
+        return "out-of-domain"
+
+
+OOD = _OutOfDomain()
+
+
+class OutOfDomain(Exception):
+    """a tree whose exact evaluation divides by zero / meets a non-finite intermediate somewhere"""
+
+
 def close(x, y, exact):
+    if y is OOD:
+        return True
     if isinstance(x, tuple) and x and x[0] == "err":
         if "ZeroDivisionError" in x[1]:
             return True      # Python raises where numpy continues with inf / nan (and may come back to a finite value): no value, no claim
@@ -625,26 +646,33 @@ def spec_tree(t, vals):
     _, form, a, b = t
     sa, na, va = spec_tree(a, vals)
     sb, nb, vb = spec_tree(b, vals)
+    def dom(res):
+        """the value oracle's domain: no zero divisor, no non-finite value anywhere in the exact evaluation"""
+        if form == "div" and any(float(v) == 0.0 for v in vb.values()):
+            raise OutOfDomain(f"zero divisor under {tree_show(t)}")
+        if any(not math.isfinite(float(v)) for v in res[2].values()):
+            raise OutOfDomain(f"non-finite intermediate under {tree_show(t)}")
+        return res
     with np.errstate(all="ignore"):
         if form != "dot":
             f = {"add": np.add, "sub": np.subtract, "mul": np.multiply, "div": np.divide}[form]
             if sa == () and sb == ():
-                return (), False, {(): f(va[()], vb[()])}
+                return dom(((), False, {(): f(va[()], vb[()])}))
             if sa == ():
-                return sb, nb, {k: f(va[()], x) for k, x in vb.items()}
+                return dom((sb, nb, {k: f(va[()], x) for k, x in vb.items()}))
             if sb == ():
-                return sa, na, {k: f(x, vb[()]) for k, x in va.items()}
+                return dom((sa, na, {k: f(x, vb[()]) for k, x in va.items()}))
             if sa != sb or na != nb or set(va) != set(vb):
                 raise Mismatch(f"{form}: {sa}/{sorted(va)} vs {sb}/{sorted(vb)}")
-            return sa, na, {k: f(va[k], vb[k]) for k in va}
+            return dom((sa, na, {k: f(va[k], vb[k]) for k in va}))
         if na or nb:
             raise Mismatch("dot: named operand")
         if sa == () and sb == ():
             raise Mismatch("dot: two values")
         if sa == ():
-            return sb, False, {k: va[()] * x for k, x in vb.items()}
+            return dom((sb, False, {k: va[()] * x for k, x in vb.items()}))
         if sb == ():
-            return sa, False, {k: x * vb[()] for k, x in va.items()}
+            return dom((sa, False, {k: x * vb[()] for k, x in va.items()}))
         if sa[-1] != sb[0]:
             raise Mismatch(f"dot: {sa} . {sb}")
         def arr(sh, v):
@@ -652,10 +680,10 @@ def spec_tree(t, vals):
                 np.array([[v[(str(i), str(j))] for j in range(sh[1])] for i in range(sh[0])])
         r = np.dot(arr(sa, va), arr(sb, vb))
         if r.ndim == 0:
-            return (), False, {(): r}
+            return dom(((), False, {(): r}))
         if r.ndim == 1:
-            return r.shape, False, {(str(i),): r[i] for i in range(r.shape[0])}
-        return r.shape, False, {(str(i), str(j)): r[i][j] for i in range(r.shape[0]) for j in range(r.shape[1])}
+            return dom((r.shape, False, {(str(i),): r[i] for i in range(r.shape[0])}))
+        return dom((r.shape, False, {(str(i), str(j)): r[i][j] for i in range(r.shape[0]) for j in range(r.shape[1])}))
 
 
 def run_tree(t, salt=0, kind="converter"):
@@ -1058,6 +1086,8 @@ def run_history(ops):
             vals = {nm: {k: v for k, v in sh.vals.items()} for nm, sh in shapes.items()}
             try:
                 _, _, exp = spec_tree(rt, vals)
+            except OutOfDomain:
+                exp = None
             except Mismatch as mm:
                 exp = None
                 if line != "none":
@@ -1642,7 +1672,7 @@ def run(chk):
         # constants and by converters — the generated code must not depend on the values (token identity with the base
         # run, hence with the model), acceptance must not either, and the values must still be numpy's
         if nontriv or (da[0] == "el" and db is not None and db[0] == "el"):
-            combos = COMBOS if not chk.quick else [COMBOS[(3 * len(req) + j) % len(COMBOS)] for j in range(3)]
+            combos = COMBOS if not chk.quick else [COMBOS[(2 * len(req) + j) % len(COMBOS)] for j in range(2)]
             for zs, zkind in combos:
                 try:
                     zline, zvals, zexc, zva, zvb = run_real(form, da, db, zs, zkind)
@@ -1763,7 +1793,7 @@ def run(chk):
     n_exh = len(trees)
     rngt = chk.rng.fork("c10-trees")
     tg = TGen(rngt)
-    want_n = 2500 if chk.quick else 25000
+    want_n = 2000 if chk.quick else 25000
     while len(trees) < n_exh + want_n:
         shape = rngt.choice([(), (1,), (2,), (2,), (3,), (1, 2), (2, 1), (2, 2), (2, 2), (2, 3), (3, 2)])
         t = tg.expr(shape, rngt.range(2, 3 if chk.quick else 4), named=(len(shape) >= 1 and rngt.chance(1, 6)))
@@ -1783,8 +1813,12 @@ def run(chk):
         dep = tree_depth(t)
         chk.case(("tree", tree_wire(t)), nontrivial=True, sample=(txt + " -> " + line[:60]) if acc and dep >= 3 and ti % 97 == 0 else None)
         rep = {"kind": "tree", "tree": t, "salt": 0}
+        ood = False
         try:
             shape, named, exp = spec_tree(t, vals)
+        except OutOfDomain:
+            shape, named, exp, ood = None, None, None, True
+            ndist["out_of_domain"] = ndist.get("out_of_domain", 0) + 1
         except Mismatch as mm:
             shape, named, exp = None, None, None
             ndist["must_reject"] += 1
@@ -1814,6 +1848,9 @@ def run(chk):
                         continue
                     try:
                         _, _, zexp = spec_tree(t, zvals)
+                    except OutOfDomain:
+                        ndist["out_of_domain_value_tables"] = ndist.get("out_of_domain_value_tables", 0) + 1
+                        continue
                     except Mismatch:
                         continue
                     dd = compare_values(zgot, {k: float(v) for k, v in zexp.items()}, exact=False)
@@ -1821,7 +1858,7 @@ def run(chk):
                         note_violation("wrong-value:nested-dot-operand" if "dot" in txt else "wrong-value:nested", 100 + len(txt),
                                        f"{txt} with value table {zs} held by {zkind}s: element {dd[0]} evaluates to {dd[1]!r}, numpy gives {dd[2]}",
                                        dict(rep, salt=zs, elem_kind=zkind, index=dd[0], observed=repr(dd[1]), expected=dd[2]))
-        if ti % (9 if chk.quick else 2) == 0 or (acc and dep >= 2 and ti % (8 if chk.quick else 2) == 0):
+        if not ood and (ti % (9 if chk.quick else 2) == 0 or (acc and dep >= 2 and ti % (8 if chk.quick else 2) == 0)):
             stock_pool.append((t, shape, named, exp))
     chk.cov["nested_trees_in_model"] = ndist
     # ---- Stock targets (item 3): flat pairs, nested trees and arrayed-element equations on fresh / arrayed stocks
@@ -1835,6 +1872,8 @@ def run(chk):
                 t = ("op", f, x, y)
                 try:
                     shape, named, exp = spec_tree(t, tree_values(t)[0])
+                except OutOfDomain:
+                    continue
                 except Mismatch:
                     shape, named, exp = None, None, None
                 stock_pool.append((t, shape, named, exp))
@@ -2054,6 +2093,9 @@ def replay(path):
             return 1 if line != base else 0
         try:
             _, _, exp = spec_tree(t, vals)
+        except OutOfDomain as od:
+            print("outside the value oracle's domain:", od)
+            return 0
         except Mismatch as mm:
             print("numpy: operands do not match:", mm)
             return 1 if line != "none" else 0
@@ -2069,6 +2111,9 @@ def replay(path):
             return 0
         try:
             exp = {k: float(v) for k, v in (vals[t[1]] if t[0] == "el" else spec_tree(t, vals)[2]).items()}
+        except OutOfDomain as od:
+            print("outside the value oracle's domain:", od)
+            return 0
         except Mismatch as mm:
             print("numpy: operands do not match:", mm)
             return 1
